@@ -219,6 +219,7 @@ def plan(tier, seed):
         ("cumulative1", None),
         ("cumulative2", None),
         ("cumulative3", b8),
+        ("alldiff4_5", None),
         ("alldiff_wide", (seed % 8, 8) if q else None),
         ("cumulative5_unit", None),
         ("cumulative_pair", None),
